@@ -1,5 +1,6 @@
 import SqlgrepModel.Lemmas.AggRun
 import SqlgrepModel.Lemmas.AggDistinct
+import SqlgrepModel.Lemmas.AggFollow
 /-
 The result half of the aggregation engine: `publishPercentiles` (the first loop of `execute_result`) cell by cell,
 the enumeration of `group_values`, and the rows of the table against the specification.
@@ -947,23 +948,24 @@ theorem firstNull_of_group {O : Oracles} {q : AggStmt} {g : List Env} (h : array
 
 /-- the value a slot shows after `publishPercentiles`, for a group of a coupled state -/
 theorem coupled_slot {O : Oracles} {q : AggStmt} (hwf : StmtWF q) {st : AggState} {rows : List (List Value × Env)}
-    (hc : Coupled O q st rows) {key : List Value} (hk : key ∈ rows.map (·.1))
+    (hc : CoupledP O q st rows) {key : List Value} (hk : key ∈ rows.map (·.1))
     (hd15 : arrayAggFirstNull O q (rowsOfKey key rows) = false)
     {i : Nat} {kind : AggKind} (hslot : (i, kind) ∈ enumFrom 0 (slotKinds q)) {r : Value}
     (hv : groupValue O q kind (rowsOfKey key rows) = some r) :
     ((readCell (publishPercentiles st) key i).val).getD (emptyGroupValue kind) = r ∧
       ∃ vs, arguments O q kind (rowsOfKey key rows) = some vs ∧
         (readCell (publishPercentiles st) key i).val.isSome = createsEntry kind vs := by
-  have hcell := hc.cells key i kind (by rw [rowSlots_eq hwf]; exact hslot)
+  obtain ⟨c, hcell, hsim⟩ := hc.cells key i kind (by rw [rowSlots_eq hwf]; exact hslot)
   have := slot_value (rowsOfKey_ne_nil hk) hcell hv (firstNull_of_group hd15 (enumFrom_mem_snd _ _ _ _ hslot))
   rw [readCell_publish hc.sorted hc.shape.aggsInner]
+  simp only [hsim.published]
   exact this
 
 /-- **the result half of the refinement**: for a state coupled to the rows, `execute_result` (+ LIMIT) yields exactly
 the specification's table — provided the group keys are exact, every group is visible (no D10 group) and no
 ARRAY_AGG starts with NULL (D15) -/
-theorem finalResult_refines {O : Oracles} {q : AggStmt} (hwf : StmtWF q) {st : AggState} {rows : List (List Value × Env)}
-    (hc : Coupled O q st rows) (hex : KeysExact (rows.map (·.1))) {t : List (List Value)}
+theorem finalResultP_refines {O : Oracles} {q : AggStmt} (hwf : StmtWF q) {st : AggState} {rows : List (List Value × Env)}
+    (hc : CoupledP O q st rows) (hex : KeysExact (rows.map (·.1))) {t : List (List Value)}
     (hspec : tableOfGroups O q (groups rows) = some t)
     (hvis : ∀ kg ∈ groups rows, groupVisible O q kg.2 = true)
     (hd15 : ∀ kg ∈ groups rows, arrayAggFirstNull O q kg.2 = false) :
@@ -1041,5 +1043,66 @@ theorem finalResult_refines {O : Oracles} {q : AggStmt} (hwf : StmtWF q) {st : A
     simp only [Outcome.bind, bind, pure]
     rw [← hspec]
     cases q.distinct <;> cases q.limit <;> simp [distinctPass_nil]
+
+theorem finalResult_refines {O : Oracles} {q : AggStmt} (hwf : StmtWF q) {st : AggState} {rows : List (List Value × Env)}
+    (hc : Coupled O q st rows) (hex : KeysExact (rows.map (·.1))) {t : List (List Value)}
+    (hspec : tableOfGroups O q (groups rows) = some t)
+    (hvis : ∀ kg ∈ groups rows, groupVisible O q kg.2 = true)
+    (hd15 : ∀ kg ∈ groups rows, arrayAggFirstNull O q kg.2 = false) :
+    finalResult O q { agg := st } = .ok { columns := q.items.map (·.name), rows := t } :=
+  finalResultP_refines hwf (coupledP_of_coupled hc) hex hspec hvis hd15
+
+/-- **results are repeatable**: `execute_result` (its state change is `publishPercentiles`) keeps the coupling -/
+theorem coupledP_publish {O : Oracles} {q : AggStmt} {st : AggState} {rows : List (List Value × Env)}
+    (hc : CoupledP O q st rows) : CoupledP O q (publishPercentiles st) rows := by
+  refine ⟨aggSorted_publish hc.sorted, ?_, ?_, shape_publish hc.shape⟩
+  · intro key i kind hm
+    obtain ⟨c, hfold, hsim⟩ := hc.cells key i kind hm
+    refine ⟨c, hfold, ?_⟩
+    rw [readCell_publish hc.sorted hc.shape.aggsInner]
+    cases kind with
+    | percentile e p =>
+      obtain ⟨hagg, hval, hshape, hstale⟩ := hsim
+      refine ⟨hagg, hval, hshape, ?_⟩
+      simp only
+      -- what is published is either nothing or the value of a non-empty percentile aggregator
+      unfold published
+      rw [hagg]
+      cases ha : c.agg with
+      | none =>
+        rcases hstale with h1 | ⟨xs, p', h2, _⟩
+        · exact Or.inl h1
+        · rw [ha] at h2; simp at h2
+      | some a =>
+        obtain ⟨xs, p', hxs⟩ := hshape a ha
+        subst hxs
+        simp only
+        cases hv : percentileValue xs p' with
+        | some v =>
+          right
+          refine ⟨xs, p', rfl, ?_⟩
+          intro he; subst he
+          simp [percentileValue, sortValues] at hv
+        | none =>
+          simp only
+          rcases hstale with h1 | ⟨ys, q0, h2, hne⟩
+          · exact Or.inl h1
+          · right
+            rw [ha] at h2
+            exact ⟨ys, q0, h2, hne⟩
+    | _ =>
+      simp only [CellSim] at hsim ⊢
+      obtain ⟨he, hp⟩ := hsim
+      refine ⟨?_, hp⟩
+      rw [he]
+      have : published c = c.val := by
+        unfold published
+        cases ha : c.agg with
+        | none => rfl
+        | some a => cases a <;> first | rfl | (rw [ha] at hp; simp [isPct] at hp)
+      rw [this]
+  · intro key i hi
+    rw [readCell_publish hc.sorted hc.shape.aggsInner, hc.others key i hi]
+    rfl
 
 end Sqlgrep
